@@ -574,6 +574,7 @@ class Child:
         self.want = None
         self.last = None
         self.final = None
+        self.tx = ""      # Connection.in_transaction reported with the last message ("y" / "n" / "")
 
 
 def spawn_one(idx: int, dbdir: str, order: list, cursor: bool, mode: str, seed: int, offset: float, fds: list,
@@ -627,6 +628,8 @@ def pump(kids: list, timeout: float) -> bool:
             line, c.buf = c.buf.split(b"\n", 1)
             m = json.loads(line)
             got = True
+            if m.get("tx"):
+                c.tx = m["tx"]
             if m["ev"] == "want":
                 c.state, c.want = "want", m
             elif m["ev"] == "done":
@@ -727,6 +730,36 @@ def step(kids, c: Child, tracked, trace, sched_label=None, timeout=9.0):
         ev["jm"] = jm_of_results(results)
     ev["tx"] = tx_of_results(results)
     if sched_label is not None and CLS_OF_LABEL.get(sched_label) != cls:
+        ev["unexpected"] = sched_label
+    trace.append(ev)
+
+
+def lock_holders(kids, c: Child) -> list:
+    """Workers parked at a schedule point INSIDE a library call whose connection is inside a transaction: they hold
+    (or may hold) the write lock in a critical section that ends when they are allowed to go on."""
+    return [h for h in kids if h is not c and h.state == "want" and h.tx == "y" and h.want["cls"] != "close"]
+
+
+def waited_write(kids, c: Child, hs: list, tracked, trace, sched_label=None):
+    """c is about to write while the workers hs are parked inside a transaction in the middle of a library call (the
+    real code keeps the transaction open across more operations than the model).  The model: the busy handler of the
+    writer waits and the holder, being inside its call, goes on (Insert is not enabled while the lock is held; LockWait).
+    So: c's write is started, the holders perform their next operations until their transaction has ended - or until
+    they go idle still inside it, then nothing ends it and c sits out the busy timeout - and c's write completes."""
+    grant(c)
+    for h in hs:
+        n = 0
+        while c.state == "running" and h.state == "want" and h.tx == "y" and h.want["cls"] != "close" and n < 60:
+            step(kids, h, tracked, trace)
+            trace[-1]["while_writer_waits"] = c.idx
+            n += 1
+    ok = wait_for(kids, lambda: c.state in ("want", "finished", "dead"), 25.0)
+    results = [c.last]
+    if not ok:
+        c.state = "stuck"
+    ev = {"p": c.idx, "cls": "write", "r": summarise("write", results, tracked), "n": 1, "tx": tx_of_results(results),
+          "waited_for": [h.idx for h in hs]}
+    if sched_label is not None and CLS_OF_LABEL.get(sched_label) != "write":
         ev["unexpected"] = sched_label
     trace.append(ev)
 
@@ -839,7 +872,12 @@ def run_controlled(scn_dir: str, work: Path, n: int, sched: list, orders: list, 
                 # model (its page work is over early) stays open - idle - until the schedule closes it
                 diverged += 1
                 continue
-            step(kids, c, tracked, trace, label)
+            hs = lock_holders(kids, c) if c.want["cls"] == "write" else []
+            if hs:
+                waited_write(kids, c, hs, tracked, trace, label)
+                diverged += 1
+            else:
+                step(kids, c, tracked, trace, label)
             if trace[-1].get("unexpected"):
                 diverged += 1
         # whatever is left (schedule shorter than the real run): round-robin
@@ -847,7 +885,11 @@ def run_controlled(scn_dir: str, work: Path, n: int, sched: list, orders: list, 
         while any(c.state == "want" for c in kids):
             for c in kids:
                 if c.state == "want":
-                    step(kids, c, tracked, trace)
+                    hs = lock_holders(kids, c) if c.want["cls"] == "write" else []
+                    if hs:
+                        waited_write(kids, c, hs, tracked, trace)
+                    else:
+                        step(kids, c, tracked, trace)
                     extra += 1
         diverged += extra
         finals = finals_of(kids)
@@ -1574,8 +1616,13 @@ def _run(o, thorough, rng, gens, side, provcfg, jobs):
         stats["replay_" + res] += 1
         if rp["diverged"]:
             stats["diverged_replays"] += 1
-            o.note_drift({"why": "the real processes did not follow the model's step sequence", "scn": case["scn"],
-                          "unexpected": [e for e in rp["trace"] if e.get("unexpected")][:3], "steps_beyond_schedule": rp["diverged"]})
+            held = [e for e in rp["trace"] if e.get("waited_for")]
+            o.note_drift({"why": "the real processes did not follow the model's step sequence"
+                          + ("; a worker kept its write transaction open across further operations inside the library call (model: the write is "
+                             "immediately followed by the commit) - the other writer waited for it" if held else ""),
+                          "scn": case["scn"], "unexpected": [e for e in rp["trace"] if e.get("unexpected")][:3],
+                          "writes_that_waited": [{"writer": e["p"], "holders": e["waited_for"], "result": e["r"]} for e in held][:3],
+                          "steps_beyond_schedule": rp["diverged"]})
         if v["bad"]:
             stats["trace_mismatch"] += 1
             o.note_drift({"why": "performed operation trace is not a behaviour of the model", "scn": case["scn"], "first": v["bad"][:2]})
